@@ -348,3 +348,34 @@ class frame_render:
             yield "a-focus-part-without-rows-shows-no-cursor", is_none(r.cursor)
         else:
             yield "cursor-is-the-focus-parts-shifted-by-its-top-row", opt_eq_shift(r.cursor, child.cursor, 0, part_top(fp, a.size, htrim, ftrim))
+
+
+# ------------------------------------------------------------------------------------------------ C08: the constructor
+@contract(FR + "_check_widget_subclass", property=(), assumed=True,
+          notes="emits a DeprecationWarning for a non-Widget object and does nothing else (warnings are dropped, DESIGN 2.1); isinstance of an opaque child is outside the widget protocol")
+class frame_check_subclass:
+    params = dict(widget=Opt(WIDGET))
+
+
+if "urwid/widget/widget.py:Widget.__init__" not in REGISTRY:
+
+    @contract("urwid/widget/widget.py:Widget.__init__", property=(), assumed=True,
+              notes="stores `self.logger = logging.getLogger(<class path>)` and nothing else; logger calls are dropped (DESIGN 2.1), the attribute is never read by verified code")
+    class widget_init:
+        self_shape = Obj(urwid.Widget, {})
+        modifies = ()
+
+
+@contract(FR + "Frame.__init__", property="C08", inline=FINL, replayable=False)
+class frame_init:
+    self_shape = FRAME
+    params = dict(body=WIDGET, header=Opt(WIDGET), footer=Opt(WIDGET), focus_part=Enum(*PARTS))
+    raises = ()
+
+    def ensures(old, s, a, result):
+        yield "parts-stored", both(eq(s._body, a.body), opt_same(s._header, a.header), opt_same(s._footer, a.footer))
+        yield "focus-part-as-asked", eq(s.focus_part, a.focus_part)
+        # C08: the focus position of a new Frame is a part that exists
+        # FAILS-ON-TREE: Frame(SolidFill(), focus_part='header') (no header): focus_position == 'header', focus is None,
+        #   contents['header'] -> KeyError, get_cursor_coords((5, 4)) -> AttributeError: 'NoneType' object has no attribute 'selectable'
+        yield "focus-position-is-a-part-that-exists", frame_inv(s)
